@@ -364,6 +364,14 @@ void OPN2::touchNote(size_t c,
 
     uint_fast32_t volume = 0;
 
+    // MIDI data bytes are 7-bit; larger values would index the volume model tables out of range
+    if(velocity > 127)
+        velocity = 127;
+    if(channelVolume > 127)
+        channelVolume = 127;
+    if(channelExpression > 127)
+        channelExpression = 127;
+
     uint8_t op_vol[4] =
     {
         adli.OPS[OPERATOR1].data[1],
